@@ -22,6 +22,9 @@ Inductive expr : Type :=
 | ECall (f : expr) (args : exprs)
 | EBin (a b : expr)                           (* a + b *)
 | EFun (ps : list name) (b : block)           (* function(ps) b end *)
+| EStr (n : N)                                (* "sN"  — a string literal *)
+| ETable (es : exprs)                         (* {es}  — a table constructor with positional fields *)
+| EMeth (e : expr) (m : name) (args : exprs)  (* e:m(args)  — m is a method name, not a name use *)
 with exprs : Type :=
 | ENil
 | ECons (e : expr) (es : exprs)
@@ -38,6 +41,9 @@ with stat : Type :=
 | SIf (c : expr) (b : block) (els : elifs)
 | SFor (x : name) (es : exprs) (b : block)    (* for x = es do b end *)
 | SForIn (xs : list name) (es : exprs) (b : block)
+| SLabel (l : name)                           (* ::l::  — labels live in their own name space *)
+| SGoto (l : name)                            (* goto l *)
+| SLocalAttr (x : name) (cl : bool) (es : exprs)   (* local x <const> [= es]  /  local x <close> [= es] *)
 with elifs : Type :=
 | ElEnd
 | ElElse (b : block)
@@ -96,7 +102,7 @@ Definition len_meth (m : option name) : N := match m with Some m => 1 + nlen m |
 
 (** a call / index prefix that is not itself a prefix expression is parenthesised *)
 Definition is_prefix (e : expr) : bool :=
-  match e with EName _ | EIdx _ _ | ECall _ _ => true | _ => false end.
+  match e with EName _ | EIdx _ _ | ECall _ _ | EMeth _ _ _ => true | _ => false end.
 Definition paren (e : expr) : N := if is_prefix e then 0 else 1.
 
 Fixpoint len_expr (e : expr) : N :=
@@ -107,6 +113,9 @@ Fixpoint len_expr (e : expr) : N :=
   | ECall f args => paren f + len_expr f + paren f + 1 + len_exprs args + 1
   | EBin a b => len_expr a + 3 + len_expr b
   | EFun ps b => 8 + (1 + len_names ps + 1) + (1 + len_block b) + 3
+  | EStr n => 2 + numlen n + 1
+  | ETable es => 1 + len_exprs es + 1
+  | EMeth e m args => paren e + len_expr e + paren e + 1 + nlen m + 1 + len_exprs args + 1
   end
 with len_exprs (es : exprs) : N :=
   match es with
@@ -127,6 +136,9 @@ with len_stat (s : stat) : N :=
   | SIf c b els => 3 + len_expr c + 5 + (1 + len_block b) + len_elifs els
   | SFor x es b => 4 + nlen x + 3 + len_exprs es + 3 + (1 + len_block b) + 3
   | SForIn xs es b => 4 + len_names xs + 4 + len_exprs es + 3 + (1 + len_block b) + 3
+  | SLabel l => 2 + nlen l + 2
+  | SGoto l => 5 + nlen l
+  | SLocalAttr x cl es => 6 + nlen x + 8 + match es with ENil => 0 | _ => 3 + len_exprs es end
   end
 with len_elifs (els : elifs) : N :=
   match els with
@@ -165,6 +177,9 @@ Fixpoint pr_expr (e : expr) : text :=
   | ECall f args => lpar f ++ pr_expr f ++ rpar f ++ str "(" ++ pr_exprs args ++ str ")"
   | EBin a b => pr_expr a ++ str " + " ++ pr_expr b
   | EFun ps b => str "function" ++ (str "(" ++ pr_names ps ++ str ")") ++ (str " " ++ pr_block b) ++ str "end"
+  | EStr n => str """s" ++ dec n ++ str """"
+  | ETable es => str "{" ++ pr_exprs es ++ str "}"
+  | EMeth e m args => lpar e ++ pr_expr e ++ rpar e ++ str ":" ++ name_text m ++ str "(" ++ pr_exprs args ++ str ")"
   end
 with pr_exprs (es : exprs) : text :=
   match es with
@@ -189,6 +204,11 @@ with pr_stat (s : stat) : text :=
       str "for " ++ name_text x ++ str " = " ++ pr_exprs es ++ str " do" ++ (str " " ++ pr_block b) ++ str "end"
   | SForIn xs es b =>
       str "for " ++ pr_names xs ++ str " in " ++ pr_exprs es ++ str " do" ++ (str " " ++ pr_block b) ++ str "end"
+  | SLabel l => str "::" ++ name_text l ++ str "::"
+  | SGoto l => str "goto " ++ name_text l
+  | SLocalAttr x cl es =>
+      str "local " ++ name_text x ++ (if cl then str " <close>" else str " <const>")
+      ++ match es with ENil => [] | _ => str " = " ++ pr_exprs es end
   end
 with pr_elifs (els : elifs) : text :=
   match els with
